@@ -11,6 +11,8 @@ pub mod c37;
 pub mod c23;
 #[cfg(kani)]
 pub mod c22;
+#[cfg(kani)]
+pub mod c07;
 
 // written by `./check <id> --replay <file>` (Kani concrete playback of a recorded counterexample)
 #[cfg(all(kani, test))]
